@@ -60,7 +60,10 @@ pub fn decompress(codec: u8, body: &[u8]) -> Result<Vec<u8>, String> {
             d.read_to_end(&mut out).map_err(|e| format!("lz4: {}", e))?;
             Ok(out)
         }
+        #[cfg(feature = "zstd")]
         4 => zstd::stream::decode_all(body).map_err(|e| format!("zstd: {}", e)),
+        #[cfg(not(feature = "zstd"))]
+        4 => Err("zstd support not compiled in".into()),
         5 => {
             let mut d = snap::read::FrameDecoder::new(body);
             let mut out = Vec::new();
